@@ -620,6 +620,31 @@ def l16(ctx, rid):
     c03.i4(ctx, rid)
 
 
+def l17(ctx, rid):
+    """a storage that initialised successfully has a running maintenance worker: in every function that launches the observer
+    (Storage::init_ext) no Ok return is reachable around the launch - also not for `nothing to load` corner cases such as a lazy
+    init of an empty directory (the first write would create the active blob inline, and nothing would ever rotate it)"""
+    prog = ctx.prog
+    S = core.Summ(prog, lambda c: c.name == 'launch_observer' or any(t.endswith('::launch_observer') for t in prog.resolve(c)), need_ok=False)
+    n = 0
+    for f in prog.fns.values():
+        if f.file != 'src/storage/core.rs' or not any(S.pred(c) for c in f.calls if c.bb in f.reachable()):
+            continue
+        root = prog.fns[f.id].root
+        n += 1
+        key = 'init-launches-worker|%s' % root
+        if S.must(f.id if not f.is_coroutine else root) or S.must(f.id):
+            ctx.ok(rid, key, f.where(), 'every ok return passes launch_observer')
+        else:
+            ev = set(S.events(f))
+            exits = [bb for (bb, k, _) in core.exit_defs(f) if k in ('ok', 'fwd', 'val') and bb in f.reachable()]
+            free = f.reach_from([0], avoid_enter=ev)
+            hit = [e for e in exits if e in free]
+            ctx.bad(rid, key, f.where(hit[0] if hit else None), 'initialisation can return Ok without having launched the maintenance worker: every later notification is dropped, the active blob is never rotated and no index is dumped in background')
+    if n < 1:
+        raise core.AnchorLost('callers of launch_observer: %d' % n)
+
+
 RULES = [
     Rule('C13.L1', 'the worker loop is only left through the Stop arm (recv() == None) and contains no reachable panic written in the worker module', l1, 4),
     Rule('C13.L3', 'one channel, Sender never cloned, stored only in the Running state, dropped before the worker handle is awaited', l3, 4),
@@ -634,6 +659,7 @@ RULES = [
     Rule('C13.L13', 'filters of different shape are never merged on the worker path (C10.B10 instances: the merge would panic inside the worker)', l13, 2),
     Rule('C13.L14', 'a state transition of the observer never drops a Running state (its Sender) on a returning path', l14, 1),
     Rule('C13.L16', 'a failed index load ends in clear() + successful regeneration before the blob is handed on (C03.I4 instances)', l16, 2),
+    Rule('C13.L17', 'every successful initialisation has launched the maintenance worker', l17, 1),
     Rule('C13.L15', 'the blob id counter is never given back: a creation failure bound to one file name cannot repeat for ever (C07.H6 instances)', l15, 3),
     Rule('C13.L8', 'request-pending / in-progress flags are released on every path of their handler (C12.S8 instances)', l8, 1),
 ]
